@@ -815,11 +815,11 @@ def main():
                        'LAPACK / expm / libm are outside the proof: float results are compared with exact rational values at 1e-8 relative',
                        'PageRank fixed point is asserted only when no column of A is empty (otherwise the code rescales, see notes/C18.md)']
     # T-gen: whole bodies of pagerank_centrality / mean_first_passage_time re-extracted from /repo's current source
-    ck.cov['cores'] = cores.generate(families=['walks'])
+    ck.cov['cores'] = cores.generate(families=['walks', 'pinwalk'])
     for p_ in ck.cov['cores']['problems']:
         ck.corr_break('core extractor (translate/cores.py)', p_)
     ok = ck.lean_gate(['BctVerif.Props.C18'], extra_modules=['BctVerif.Model.Walks'])
-    ck.lean_gate([], gen_modules=['BctVerif.Gen.CoresWalks'])
+    ck.lean_gate([], gen_modules=['BctVerif.Gen.CoresWalks', 'BctVerif.Gen.CoresPinWalk'])
     if ck.tier == 'thorough' and ok:
         ck.leanchecker(['BctVerif.Props.C18', 'BctVerif.Model.Walks'])
     if ck.replay:
